@@ -4,6 +4,7 @@ import (
 	"fmt"
 	"math/rand"
 	"net"
+	"runtime"
 	"sort"
 	"strconv"
 	"strings"
@@ -232,6 +233,9 @@ func ilvText(r *rand.Rand) string {
 }
 
 func ilvEvent(r *rand.Rand) *girc.Event {
+	if r.Intn(5) == 0 { // longer than bufio's buffer and never split: goes to the socket in one Write
+		return &girc.Event{Command: Pick(r, "TOPIC", "KICK", "MODE", "AWAY"), Params: []string{"#chan", strings.Repeat(Pick(r, "a", "b c ", "word ", "caf\xc3\xa9 "), 1100+r.Intn(1500)) + Pick(r, cmdTails...)}}
+	}
 	switch r.Intn(8) {
 	case 0:
 		return &girc.Event{Command: Pick(r, "JOIN", "MODE", "TOPIC", "WHO"), Params: []string{Pick(r, "#c", "#chan"), ilvText(r)}}
@@ -262,13 +266,26 @@ func genInterleave(r *rand.Rand) Case {
 func fixedInterleave() []Case {
 	demo := &girc.Event{Command: girc.PRIVMSG, Params: []string{"#c", "evil QUIT :smuggled by a relayed message"}}
 	second := &girc.Event{Command: girc.PRIVMSG, Params: []string{"#chan", "second message"}}
+	huge := &girc.Event{Command: "TOPIC", Params: []string{"#chan", strings.Repeat("a", 6000)}}
 	long := &girc.Event{Command: girc.PRIVMSG, Params: []string{"#c", strings.Repeat("relayed text ", 28) + ":evil QUIT :bye"}}
 	var out []Case
 	for _, stall := range []int{0, 1, 11, 12, 30} {
 		out = append(out, mkInterleaveCase(ilvSched{1, 1, 4096, 0, stall}, []string{"tick"}, []*girc.Event{demo, second}))
 		out = append(out, mkInterleaveCase(ilvSched{2, 2, 7, 50, stall}, []string{"tick", "tock"}, []*girc.Event{long, demo, second, long}))
 	}
+	for _, stall := range []int{0, 32, 59} {
+		out = append(out, mkInterleaveCase(ilvSched{1, 1, 32, 100, stall}, []string{"tick"}, []*girc.Event{huge}))
+		out = append(out, mkInterleaveCase(ilvSched{3, 2, 200, 20, stall}, []string{"tick", "tock"}, []*girc.Event{huge, demo, long, huge}))
+	}
 	return out
+}
+
+// ilvNeverSent are serialised in a loop by bystander goroutines while the case runs (as
+// debug logging, Pretty() or user code would); none of them is ever sent.
+var ilvNeverSent = []*girc.Event{
+	{Command: girc.PRIVMSG, Params: []string{"#never", strings.Repeat("x", 700) + "\r\nQUIT :smuggled\r\n" + strings.Repeat("y", 7000) + "\xff"}},
+	{Command: girc.PRIVMSG, Params: []string{"#never", "zzz\r\nQUIT :smuggled\r\n" + strings.Repeat("w", 300)}},
+	{Command: "NEVER", Params: []string{strings.Repeat("n\r\n", 2500)}},
 }
 
 // ---- run ---------------------------------------------------------------------------------
@@ -341,6 +358,38 @@ func runInterleave(c Case) Result {
 	if got := cl.MaxEventLength(); got != max {
 		return Result{Obs: fmt.Sprintf("?maxlen=%d", got)}
 	}
+
+	// every third case runs on a single P (a sync.Pool then hands a buffer just put back to
+	// the very next Get, whichever goroutine asks)
+	if (s.stall+len(evs))%3 == 0 {
+		old := runtime.GOMAXPROCS(1)
+		defer runtime.GOMAXPROCS(old)
+	}
+	// bystanders: serialise events that are never sent, until the case is over
+	stopBy := make(chan struct{})
+	var byWg sync.WaitGroup
+	for i := 0; i < 2; i++ {
+		byWg.Add(1)
+		go func(i int) {
+			defer byWg.Done()
+			for n := i; ; n++ {
+				select {
+				case <-stopBy:
+					return
+				default:
+				}
+				e := ilvNeverSent[n%len(ilvNeverSent)]
+				_ = e.String()
+				_ = e.Len()
+				if n%64 == 0 {
+					time.Sleep(50 * time.Microsecond)
+				} else {
+					runtime.Gosched()
+				}
+			}
+		}(i)
+	}
+	defer func() { close(stopBy); byWg.Wait() }()
 
 	want := expectedLines(max, toks, evs)
 	marker := "VSYNC ilv." + strconv.FormatInt(time.Now().UnixNano(), 36)
